@@ -5,14 +5,14 @@ From OPF Require Import Proofs.FitBase Proofs.FitSup Proofs.FitExample.
    a non-empty prototype set, computes an optimum-path forest for the max-arc path cost.
    [before l p q] (Proofs/FitBase.v): p occurs strictly before q in l. *)
 Theorem C01_compete_optimum_path_forest :
-  forall (zero top : Z) (n : nat) (w : nat -> nat -> Z) (nd0 : @nodes Z),
+  forall (zero top : Z) (nl n : nat) (w : nat -> nat -> Z) (nd0 : @nodes Z),
     let isproto q := nth q (n_status nd0) false = true in
     (zero < top)%Z ->
     (forall p q, (p < n)%nat -> (q < n)%nat -> p <> q -> (zero <= w p q < top)%Z) ->
     length (n_cost nd0) = n -> length (n_pred nd0) = n -> length (n_label nd0) = n ->
     length (n_plabel nd0) = n -> n_order nd0 = [] ->
     (exists s, (s < n)%nat /\ isproto s) ->
-    let nd := compete Z.ltb zero top false n w nd0 in
+    let nd := compete Z.ltb zero top false nl n w nd0 in
     let cost q := nth q (n_cost nd) zero in
     let pred q := nth q (n_pred nd) None in
     let plabel q := nth q (n_plabel nd) 0%nat in
